@@ -13,6 +13,12 @@ TABLE = {
     "Perturb_c11_quick": dict(BASE, PKinds="KCmt", MaxEdits=1, DumpMod=16),
     "Perturb_c11_thorough": dict(BASE, PKinds="KCmt", MaxEdits=1, MaxStmts=4),
     "Perturb_c11_sim": dict(SIM, PKinds="KCmt", MaxEdits=5),
+    # comment placements on the statements that hold a character literal (the literal continued around a comment line, a trailing
+    # comment on a line continued after the literal): one such statement per program, every placement
+    "Perturb_c11s_quick": dict(BASE, PKinds="KCmt", MaxEdits=1, MaxStmts=2, UnitKinds="SubOnly", ConKinds="Empty", SpecKinds="Empty", Contains="FALSE",
+                               SimpleV="StrSplitS", DeclV="StrSplitDecl", MaxRich="<- Unlimited", NameChoices="Set1", EndForms="Set02", DumpMod=6),
+    "Perturb_c11s_thorough": dict(BASE, PKinds="KCmt", MaxEdits=1, MaxStmts=2, UnitKinds="SubOnly", ConKinds="Empty", SpecKinds="Empty", Contains="FALSE",
+                                  SimpleV="StrSplitS", DeclV="StrSplitDecl", MaxRich="<- Unlimited", NameChoices="Set1", EndForms="Set02", DumpMod=1),
     "Perturb_c14_quick": dict(BASE, PKinds="KCpp", MaxEdits=1, DumpMod=16),
     "Perturb_c14_thorough": dict(BASE, PKinds="KCpp", MaxEdits=1, MaxStmts=4),
     "Perturb_c14_sim": dict(SIM, PKinds="KCmtCpp", MaxEdits=5),
@@ -30,9 +36,18 @@ TABLE = {
     "Perturb_c13_quick": dict(BASE, PKinds="KInc", MaxEdits=2, DumpMod=32),
     "Perturb_c13_thorough": dict(BASE, PKinds="KInc", MaxEdits=2, MaxStmts=4),
     "Perturb_c13_sim": dict(SIM, PKinds="KInc", MaxEdits=3),
-    "Perturb_c04_quick": dict(BASE, PKinds="KLayout1", MaxEdits=1, DumpMod=4),
+    "Perturb_c04_quick": dict(BASE, PKinds="KLayout1", MaxEdits=1, DumpMod=9),
     "Perturb_c04_thorough": dict(BASE, PKinds="KLayout1", MaxEdits=2, MaxStmts=4),
     "Perturb_c04_sim": dict(SIM, PKinds="KLayout", MaxEdits=8, MinEdits=4),
+    # every catalogue variant (at most one non-default variant per program) continued at every token boundary, in every continuation style
+    "Perturb_c04v_exec_quick": dict(BASE, MaxStmts=2, MaxRich="= 1", MaxVar=30, UnitKinds="SubOnly", ConKinds="SweepCons", SpecKinds="Empty", SimpleV="SimpleAll", PKinds="KBrk",
+                                    NameChoices="Set1", EndForms="Set1", Contains="FALSE", RichOnly="TRUE", DumpMod=5),
+    "Perturb_c04v_spec_quick": dict(BASE, MaxStmts=3, MaxRich="= 1", MaxVar=30, UnitKinds="SweepUnits", ConKinds="Empty", SpecKinds="AllSpec", DeclV="DeclAll", UseV="UseAll",
+                                    CompV="CompAll", TbindV="TbindAll", PKinds="KBrk", NameChoices="Set1", EndForms="Set1", Contains="FALSE", RichOnly="TRUE", DumpMod=150),
+    "Perturb_c04v_exec_thorough": dict(BASE, MaxStmts=2, MaxRich="= 1", MaxVar=30, UnitKinds="SubOnly", ConKinds="SweepCons", SpecKinds="Empty", SimpleV="SimpleAll", PKinds="KBrk",
+                                       NameChoices="Set1", EndForms="Set1", Contains="FALSE", RichOnly="TRUE", DumpMod=1),
+    "Perturb_c04v_spec_thorough": dict(BASE, MaxStmts=3, MaxRich="= 1", MaxVar=30, UnitKinds="SweepUnits", ConKinds="Empty", SpecKinds="AllSpec", DeclV="DeclAll", UseV="UseAll",
+                                       CompV="CompAll", TbindV="TbindAll", PKinds="KBrk", NameChoices="Set1", EndForms="Set1", Contains="FALSE", RichOnly="TRUE", DumpMod=6),
     # C06: every catalogue variant (sweep: at most one non-default variant per program) with every single mutation of that statement
     "Perturb_c06_exec_quick": dict(BASE, MaxRich="= 1", MaxVar=30, UnitKinds="SubOnly", ConKinds="SweepCons", SpecKinds="Empty", SimpleV="SimpleAll", PKinds="KMut",
                                    NameChoices="Set1", EndForms="Set1", Contains="FALSE", RichOnly="TRUE", DumpMod=157),
@@ -45,21 +60,21 @@ TABLE = {
     "Perturb_c06_spec_thorough": dict(BASE, MaxStmts=4, MaxRich="= 1", MaxVar=30, UnitKinds="SweepUnits", ConKinds="Empty", SpecKinds="AllSpec", DeclV="DeclAll", UseV="UseAll",
                                       FormatV="FormatAll", CompV="CompAll", TbindV="TbindAll", PKinds="KMut", NameChoices="Set1", EndForms="Set1", Contains="FALSE", RichOnly="TRUE", DumpMod=19),
     "Perturb_c06_sim": dict(SIM, PKinds="KMut", MaxEdits=3),
-    "Perturb_c15_quick": dict(BASE, PKinds="KSent", MaxEdits=2, LabelStmts="TRUE", DumpMod=3),
-    "Perturb_c15_thorough": dict(BASE, PKinds="KSent", MaxEdits=3, MaxStmts=4),
+    "Perturb_c15_quick": dict(BASE, PKinds="KSent", MaxEdits=2, LabelStmts="TRUE", DumpMod=3, UnitKinds="ExhUnits0"),
+    "Perturb_c15_thorough": dict(BASE, PKinds="KSent", MaxEdits=3, MaxStmts=4, UnitKinds="ExhUnits0"),
     "Perturb_c15_sim": dict(SIM, PKinds="KSentCmt", MaxEdits=4),
 }
 SUBST = {"UnitKinds", "ConKinds", "SpecKinds", "SimpleV", "DeclV", "UseV", "FormatV", "CompV", "TbindV", "NameChoices", "EndForms", "PKinds", "InsSet"}
 for name, d in TABLE.items():
     L = ["SPECIFICATION Spec", "CONSTANTS"]
     ncmt = d.pop("NCmtCls", 7 if "_c15_" in name else 8)
-    ncpp = d.pop("NCppForms", 18)
+    ncpp = d.pop("NCppForms", 27)
     for k, v in d.items():
         if k == "MaxRich":
             L.append("  MaxRich " + v)
             continue
         L.append("  %s %s %s" % (k, "<-" if k in SUBST else "=", v))
-    L += ["  NCmtCls = %d" % ncmt, "  NCppForms = %d" % ncpp, "  NGarb = 5", "  DirectiveCls <- DirCls",
+    L += ["  NCmtCls = %d" % ncmt, "  NCppForms = %d" % ncpp, "  NGarb = 7", "  DirectiveCls <- DirCls",
           "INVARIANT WellNested", "INVARIANT GrammarInNest", "CONSTRAINT PDump"]
     open(os.path.join(SPECS, name + ".cfg"), "w").write("\n".join(L) + "\n")
 print(len(TABLE), "cfg files written")
